@@ -393,7 +393,8 @@ TYPE_NAMES = ["Alpha", "Beta", "Gamma", "Delta", "Omega", "Sigma", "Kappa", "The
 STATIC_METHODS = ["assertThat", "checkNotNull", "emptyList", "verify"]
 STATIC_CONSTS = ["MAX_VALUE", "DEFAULT", "LIMIT", "EPS"]
 PKGS = ["com.acme", "org.demo.util", "java.util", "a.b", "net.x.y.z"]
-UNIT_NAMES = ["App", "Main", "Core", "Data", "Node", "Repo", "Util", "View", "Zed"]
+UNIT_NAMES = ["App", "Main", "Core", "Data", "Node", "Repo", "Util", "View", "Zed",
+              "Latest", "Contest", "Manifests"]      # ordinary classes whose names merely END like the test suffixes
 
 def walk_order(paths):
     """filepath.Walk: depth first, directory entries in lexical (byte) order"""
